@@ -203,6 +203,31 @@ def wind_view(f, c):
     return out
 
 
+def wind_model_diff(c, hexbytes, view):
+    """the Memmap reader's view against the Lean reader model applied to the same bytes (None = equal)"""
+    out = lib.run_model(['bin wind-read %d %s' % (c['nx'] * c['ny'], hexbytes or '-')])[0]
+    if 'err' in view:
+        return None if out.startswith('err') else 'Memmap reader raised %s, the Lean reader model reads the file' % view['err']
+    if not out.startswith('ok '):
+        return 'Lean reader model: %s, the Memmap reader read the file' % out[:40]
+    steps = [] if out[3:] == '-' else out[3:].split('|')
+    U, V, flags = [], [], []
+    nz = None
+    for st in steps:
+        t, d, g, slabs = st.split(':')
+        rows = slabs.split(',') if slabs else []
+        nz = len(rows) // 2
+        for i, r in enumerate(rows):
+            ws = [int(r[k:k + 8], 16) for k in range(0, len(r), 8)] if r != '-' else []
+            (U if i % 2 == 0 else V).extend(ws)
+        flags.append((int(d, 16), int(t, 16)))
+    if float(len(steps)) != view['nt'] or (nz is not None and float(nz) != view['nz']):
+        return 'steps/layers model=%d,%s reader=%s,%s' % (len(steps), nz, view['nt'], view['nz'])
+    if U != view['vars']['U'] or V != view['vars']['V']:
+        return 'U/V data of the Memmap reader differ from the Lean reader model'
+    return None
+
+
 def wind_build(c, dtype='f'):
     import PseudoNetCDF as pnc
     nt, nz, ny, nx = len(c['flags']), c['nz'], c['ny'], c['nx']
